@@ -117,6 +117,40 @@ def run(db, cx):
                   "position update lies inside the per-level loop", short(f.loc),
                   why="a level that is not moved places the track at different points in parent "
                       "and daughter universes")
+            # ... and that loop runs over range(level() + 1): every level down to the deepest
+            # one (seeded change c03e stopped at the level of the surface being crossed)
+            rngs = [e for (_b, _i, e) in f.events("def") if (e.get("var") or "").startswith("__range")
+                    and C + "range" in e.get("calls", [])]
+            defs = {}
+            for (_b, _i, e) in f.events("def"):
+                if e.get("var"):
+                    defs.setdefault(e["var"], []).append(e)
+
+            def all_calls(e, depth=0, seen=None):
+                seen = seen if seen is not None else set()
+                out = set(e.get("calls", []))
+                if depth < 4:
+                    for r in local_refs(e.get("refs", [])):
+                        if r in seen:
+                            continue
+                        seen.add(r)
+                        for d in defs.get(r, []):
+                            out |= all_calls(d, depth + 1, seen)
+                return out
+            okr = bool(rngs)
+            det = []
+            for e in rngs:
+                ac = all_calls(e)
+                other = sorted(c.split("::")[-1] for c in ac if c.startswith(OTV) and
+                               c.split("::")[-1] in ("next_surface_level", "surface_level", "next_level"))
+                has_level = OTV + "level" in ac
+                okr = okr and has_level and not other
+                det.append("%s%s" % (e.get("rhs"), (" (bounded by %s)" % ", ".join(other)) if other else ""))
+            cx.ob("C03.1-move-typestate", "%s moves every level down to the deepest one: range(level() + 1)" % tag,
+                  okr, "; ".join(det), short(f.loc),
+                  why="levels below the one that is moved keep a stale position; after a reflection "
+                      "on a parent-level boundary (no crossing, so no re-initialisation) the daughter "
+                      "trackers compute distances from the wrong point")
 
     # ------------------------------------------------------------- 2. cross_boundary
     for f in db.get(OTV + "cross_boundary"):
